@@ -214,10 +214,11 @@ func (c *memConn) Close() error {
 	}
 	c.localClosed = true
 	c.tClose = time.Now()
+	// logged before anybody can observe the closure, so that every reaction to it (state callback, redial) has a later seq
+	c.log.add(c.id, "CLOSE-LOCAL", nil, "")
 	c.cond.Broadcast()
 	c.mu.Unlock()
 	c.closeOnce.Do(func() { close(c.closedCh) })
-	c.log.add(c.id, "CLOSE-LOCAL", nil, "")
 	c.peer.clientClosed(c)
 	return nil
 }
@@ -247,11 +248,11 @@ func (c *memConn) peerClose(discard bool) {
 	if c.tClose.IsZero() {
 		c.tClose = time.Now()
 	}
-	c.cond.Broadcast()
-	c.mu.Unlock()
 	if !already {
 		c.log.add(c.id, "CLOSE-PEER", nil, "")
 	}
+	c.cond.Broadcast()
+	c.mu.Unlock()
 }
 
 func (c *memConn) isClosed() (local, peer bool) {
